@@ -166,6 +166,7 @@ type TermBuilder struct {
 	stores   map[ssa.Value][]*ssa.Store
 	newOrd   map[ssa.Value]int
 	prepared bool
+	busyLoad map[string]bool
 	// LivePred, when set, tells whether the edge pred->blk is live (used to
 	// resolve phis under assumptions).
 	LiveEdge func(from, to *ssa.BasicBlock) bool
@@ -425,7 +426,17 @@ func (tb *TermBuilder) load(addr ssa.Value) *Term {
 				}
 			}
 			if n == 1 && len(tb.stores[al]) == 0 {
-				return tb.Of(only.Val)
+				key := fmt.Sprintf("%p.%d", al, a.Field)
+				if tb.busyLoad == nil {
+					tb.busyLoad = map[string]bool{}
+				}
+				// a self-referential store (x.F = append(x.F, …)) is not a definition
+				if !tb.busyLoad[key] && !dependsOnField(only.Val, al, a.Field, 0) {
+					tb.busyLoad[key] = true
+					t := tb.Of(only.Val)
+					delete(tb.busyLoad, key)
+					return t
+				}
 			}
 		}
 		return tb.Of(a)
@@ -693,4 +704,27 @@ func (t *Term) Stable() string {
 		return fmt.Sprintf("<result%d>", t.Idx)
 	}
 	return t.Op
+}
+
+// dependsOnField: does value v (transitively, through operands) load field
+// `field` of alloc al?
+func dependsOnField(v ssa.Value, al *ssa.Alloc, field int, depth int) bool {
+	if depth > 8 || v == nil {
+		return false
+	}
+	if u, ok := v.(*ssa.UnOp); ok {
+		if fa, ok := u.X.(*ssa.FieldAddr); ok && fa.X == ssa.Value(al) && fa.Field == field {
+			return true
+		}
+	}
+	ins, ok := v.(ssa.Instruction)
+	if !ok {
+		return false
+	}
+	for _, op := range ins.Operands(nil) {
+		if op != nil && *op != nil && dependsOnField(*op, al, field, depth+1) {
+			return true
+		}
+	}
+	return false
 }
